@@ -118,7 +118,7 @@ def run(ck):
                 g = lambda a, b: T.app("ger", a, b)  # noqa: E731
                 # |x><y| = x conj(y)^T : re = xr yr + xi yi ; im = xi yr - xr yi
                 _pair_check(ck, "C15.R1", inst, fi.site(), p.value.term, g(xr, yr) + g(xi, yi), g(xi, yr) - g(xr, yi))
-                ck.check(p.value.shape == (2, "n", "m"), "C15.R1", inst + ":shape", fi.site(), "outer product shape %s, expected (2, n, m)" % (p.value.shape,))
+                ck.check(shape_is(p.value, (2, "n", "m")), "C15.R1", inst + ":shape", fi.site(), "outer product shape %s, expected (2, n, m)" % (p.value.shape,))
     # conj / conjugate
     for fname, shp, want in (
         ("conj", ("B",), lambda: (xr, -xi)),
@@ -142,7 +142,7 @@ def run(ck):
         fi, paths = _call(ck, "make_complex", lambda it: ([tens(it, "a", ("B",)), tens(it, "b", ("B",))], {}))
         for p in returning(paths, "make_complex"):
             _pair_check(ck, "C15.R2", "make_complex(x,y)", fi.site(), p.value.term, S("a"), S("b"))
-            ck.check(p.value.shape == (2, "B"), "C15.R2", "make_complex:shape", fi.site(), "shape %s" % (p.value.shape,))
+            ck.check(shape_is(p.value, (2, "B")), "C15.R2", "make_complex:shape", fi.site(), "shape %s" % (p.value.shape,))
             fi, paths = _call(ck, "make_complex", lambda it: ([tens(it, "a", ("B",))], {}))
             p = single(paths, "make_complex")
             _pair_check(ck, "C15.R2", "make_complex(x)", fi.site(), p.value.term, S("a"), T.ZERO)
